@@ -369,7 +369,12 @@ def program_source(prog, uid="") -> str:
         if prog.get("local"):
             decl = "def _make():\n" + "".join("    " + l + "\n" for l in decl.splitlines()) + "    return A\nA = _make()\n"
     used = sorted({f["to"] for f in fields if f.get("to") in TARGET_NAMES}) or TARGET_NAMES[:1]
-    targets = "".join(f"class {n}{uid}(Schema):\n    x: int\n" for n in used)
+    if prog.get("chain"):
+        # the referenced classes have a pending reference of their own: their first parse happens inside A's
+        targets = "".join(f"class {n}{uid}(Schema):\n    x: int\n    y: 'Z{uid}' = None\n" for n in used)
+        targets += f"class Z{uid}(Schema):\n    x: int\n"
+    else:
+        targets = "".join(f"class {n}{uid}(Schema):\n    x: int\n" for n in used)
     if prog.get("ret"):
         targets += f"class R{uid}(Schema):\n    x: int\n    n: int = 0\n"
     return imp + decl + targets
@@ -388,14 +393,14 @@ def drop(m):
     sys.modules.pop(m.__name__, None)
 
 
-def field_input(i, f, bad):
+def field_input(i, f, bad, chain=False):
     x = "zz" if bad else str(i + 1)
-    v = {"x": x}
+    v = {"x": x, "y": {"x": "9"}} if chain else {"x": x}
     return {"ref": v, "list": [v], "slist": [v], "opt": v, "dict": {"k": v}, "plain": ("zz" if bad else str(i + 7))}[f["ann"]]
 
 
 def call_input(prog, call):
-    return {f"f{i}": field_input(i, prog["fields"][i], call.get("bad") == i) for i in call["use"]}
+    return {f"f{i}": field_input(i, prog["fields"][i], call.get("bad") == i, bool(prog.get("chain"))) for i in call["use"]}
 
 
 def canon(v):
@@ -693,7 +698,7 @@ def modelled(case) -> bool:
         return False
     if sorted(case.get("points") or []) != sorted(FWD_POINTS):
         return False
-    return all(f["ann"] in MODELLED_ANN for f in case["prog"]["fields"]) and not case["prog"].get("ret")
+    return all(f["ann"] in MODELLED_ANN for f in case["prog"]["fields"]) and not case["prog"].get("ret") and not case["prog"].get("chain")
 
 
 def world_of(prog):
@@ -727,6 +732,23 @@ def schedules_2(L, k):
             if k >= 2:
                 for n1 in range(1, L[b]):
                     out.append([[a, n0], [b, n1], [a, INF]])                 # 2 preemptions
+    return out
+
+
+def schedules_n(L, nthreads, k):
+    """all schedules with <= k preemptions for any number of threads"""
+    out = []
+
+    def rec(prefix, cur, left):
+        out.append(prefix + [[cur, INF]])
+        if left > 0:
+            for n in range(1, L[cur]):
+                for nxt in range(nthreads):
+                    if nxt != cur:
+                        rec(prefix + [[cur, n]], nxt, left - 1)
+
+    for a in range(nthreads):
+        rec([], a, k)
     return out
 
 
@@ -764,6 +786,8 @@ def gen_prog(rng, small=False):
     if not any(f["ann"] != "plain" for f in fields):
         fields[0] = {"ann": "ref", "to": "B"}
     prog = {"kind": kind, "local": local, "fields": fields}
+    if rng.random() < 0.15:
+        prog["chain"] = True
     if kind == "fn" and not local and rng.random() < 0.3:
         prog["ret"] = True      # (a function-local function with a forward-referenced result fails sequentially: C17)
     return prog
@@ -877,9 +901,14 @@ class C20(Check):
             nt = 2 if (tier == "quick" or rng.random() < 0.5) else 3
             pts = FWD_POINTS if rng.random() < 0.8 else ALL_POINTS
             items.append({"op": "fwd", "prog": p, "threads": gen_threads(rng, p, nt), "points": pts, "mode": "vis"})
+        first3 = None
         if tier == "thorough":
             for p in BASE_PROGS[:6]:
                 items.append({"op": "fwd", "prog": p, "threads": [[full_use(p)], [full_use(p)]], "points": ALL_POINTS, "mode": "all"})
+            # 3 threads, every schedule with <= 2 preemptions
+            first3 = len(items)
+            for p in (BASE_PROGS[1], BASE_PROGS[2]):
+                items.append({"op": "fwd", "prog": p, "threads": [[full_use(p)]] * 3, "points": FWD_POINTS, "mode": "vis"})
         # (c) lookups in a shared registry (a registration now and then: known finding)
         nreg = {"quick": 25, "thorough": 120, "search": 30}[tier]
         first_reg = len(items)
@@ -897,7 +926,9 @@ class C20(Check):
             if not L:
                 L = [40] * len(it["threads"])
             nt = len(it["threads"])
-            if idx >= first_apf:
+            if first3 is not None and first3 <= idx < first3 + 2:
+                scheds = schedules_n(L, 3, 2)
+            elif idx >= first_apf:
                 scheds = schedules_2(L, 2) if nt == 2 else [random_schedule(rng, L, nt, rng.randint(1, 3)) for _ in range(100)]
             elif idx >= first_reg:
                 scheds = schedules_2(L, 2) if nt == 2 else []
@@ -1066,7 +1097,7 @@ class C20(Check):
             hr = any("reg" in op for ops in case["threads"] for op in ops)
             return f"registry/cache={case['cache']}/threads={len(case['threads'])}/{'with-register' if hr else 'lookups-only'}"
         p = case["prog"]
-        anns = "+".join(f["ann"] + ("!" if f["to"] == "U" else "") for f in p["fields"]) + ("->ref" if p.get("ret") else "")
+        anns = "+".join(f["ann"] + ("!" if f["to"] == "U" else "") for f in p["fields"]) + ("->ref" if p.get("ret") else "") + ("+chain" if p.get("chain") else "")
         pre = "?"
         if isinstance(io, dict) and "trace" in io:
             tr = io["trace"]
@@ -1159,7 +1190,8 @@ class C20(Check):
         ev["coverage"]["exhaustive"] = False
         ev["coverage"]["exhaustive_part"] = (
             "every schedule with <= 2 preemptions at shared-state lines, 2 threads x 1 full call, for the first "
-            + ("2 base declarations (quick)" if tier == "quick" else f"{len(BASE_PROGS)} base declarations (thorough)"))
+            + ("2 base declarations; <= 150 of them for each 2-thread registry program (quick)" if tier == "quick" else
+               f"{len(BASE_PROGS)} base declarations, and with 3 threads for 2 of them; <= 150 for each 2-thread registry program (thorough)"))
 
 
 CHECK = C20()
